@@ -64,6 +64,7 @@ func (o StepObs) coq() string {
 // ---------------------------------------------------------------------------- generator
 
 type ribGen struct {
+	hist []drv.OpSpec // earlier ADD / REPLACE operations (to program them again)
 	r      *drv.Rng
 	nextID uint64
 	// what the generator believes is installed (only to bias choices; never used as an oracle)
@@ -182,6 +183,40 @@ func (g *ribGen) step() RStep {
 		}
 		return RStep{K: "flush", NIs: [][]int{{1}, {2}, {3}, {1, 2}, {2, 3}}[g.r.Intn(5)]}
 	}
+	if len(g.hist) > 0 && g.r.Chance(1, 6) {
+		// an earlier operation is programmed again: identical, with leaves removed, or with one leaf changed
+		o := g.hist[g.r.Intn(len(g.hist))]
+		for try := 0; try < 4 && len(o.X) == 0 && o.NHGN == 0 && o.Bk == 0; try++ { // prefer one that has optional leaves
+			o = g.hist[g.r.Intn(len(g.hist))]
+		}
+		o.ID = g.id()
+		o.Kind = drv.Pick(g.r, "ADD", "ADD", "REPLACE")
+		switch g.r.Intn(4) {
+		case 0:
+		case 1, 2: // only removes leaves
+			if len(o.X) > 0 {
+				o.X = append([][2]uint64{}, o.X[:g.r.Intn(len(o.X))]...)
+			}
+			if g.r.Chance(1, 2) {
+				o.Bk = 0
+			}
+			if o.NHGN == o.NI {
+				o.NHGN = 0 // the same instance, named or not
+			}
+			if len(o.NHs) > 1 && g.r.Chance(1, 2) {
+				o.NHs = append([][2]uint64{}, o.NHs[:1]...)
+			}
+		default:
+			if len(o.X) > 0 {
+				x := append([][2]uint64{}, o.X...)
+				x[0][1] = 1 + x[0][1]%2
+				o.X = x
+			} else if o.T == "nhg" {
+				o.Bk = uint64(1 + g.r.Intn(3))
+			}
+		}
+		return RStep{K: "add", Op: &o}
+	}
 	o := &drv.OpSpec{ID: g.id(), NI: g.ni()}
 	g.entry(o)
 	k := "add"
@@ -196,6 +231,9 @@ func (g *ribGen) step() RStep {
 	}
 	if g.r.Chance(1, 200) {
 		o.T = "none"
+	}
+	if k == "add" && !o.Nil && o.T != "none" {
+		g.hist = append(g.hist, *o)
 	}
 	return RStep{K: k, Op: o}
 }
